@@ -1407,6 +1407,10 @@ func runLenPrefix(c *Ctx) {
 			continue
 		}
 		info := f.Info()
+		// a record writer writes to a stream it is handed; a method that happens to be called write... and writes a local file is none
+		if !hasWriterParam(info, f) {
+			continue
+		}
 		// source(x): the expression strings that denote the same text: x itself and, for x := []byte(E) / string(E), E
 		sources := func(e ast.Expr) []string {
 			out := []string{types.ExprString(ast.Unparen(e))}
@@ -2156,4 +2160,26 @@ func runSidecarAlloc(c *Ctx) {
 	if n == 0 {
 		c.Bad("sidecar-alloc/none", f.Pos(), "LoadSidecar allocates nothing sized by the file")
 	}
+}
+
+// hasWriterParam: some parameter of f has a Write([]byte) (int, error) method (io.Writer, transfer.Stream, *bufio.Writer ...).
+func hasWriterParam(info *types.Info, f *FuncInfo) bool {
+	if f.Type == nil || f.Type.Params == nil {
+		return false
+	}
+	for _, fl := range f.Type.Params.List {
+		t := info.TypeOf(fl.Type)
+		if t == nil {
+			continue
+		}
+		for _, tt := range []types.Type{t, types.NewPointer(t)} {
+			ms := types.NewMethodSet(tt)
+			for i := 0; i < ms.Len(); i++ {
+				if ms.At(i).Obj().Name() == "Write" {
+					return true
+				}
+			}
+		}
+	}
+	return false
 }
